@@ -83,7 +83,8 @@ def page_geometry(page_spec):
     for j, ln in enumerate(page_spec['lines']):
         y = 28 + 36 * j
         x0, x1 = 16, 16 + BLOCK * ln['blocks']
-        lines.append({'id': ln.get('id', 'l%03d' % j), 'y': y, 'x0': x0, 'x1': x1})
+        lines.append({'id': ln.get('id', 'l%03d' % j), 'y': y, 'x0': x0, 'x1': x1,
+                      'hsplit': tuple(ln.get('hsplit', HEIGHTS))})
     return height, width, lines
 
 
@@ -95,7 +96,7 @@ def paint_page(page_spec, nchars):
         seq = symbols_for_line(ln, nchars)
         for b, sym in enumerate(seq):
             xs = g['x0'] + b * BLOCK
-            img[g['y'] - int(HEIGHTS[0]) - 2:g['y'] + int(HEIGHTS[1]) + 2, xs:xs + BLOCK] = _color(sym)
+            img[g['y'] - 16:g['y'] + 10, xs:xs + BLOCK] = _color(sym)
     return img
 
 
@@ -136,7 +137,7 @@ def page_xml(page_spec, page_id, style='pero', regions_only=False, size=None):
                 out.append('        <Coords points="%s"/>' % ' '.join(pts))
                 out.append('        <Baseline points="%s"/>' % ' '.join('%d,%d' % (round(x), y) for x in xs))
             else:
-                out.append('      <TextLine id=%s index="%d" custom="heights_v2:[%.1f,%.1f]">' % (quoteattr(g['id']), j, HEIGHTS[0], HEIGHTS[1]))
+                out.append('      <TextLine id=%s index="%d" custom="heights_v2:[%.1f,%.1f]">' % (quoteattr(g['id']), j, g['hsplit'][0], g['hsplit'][1]))
                 out.append('        <Coords points="%d,%d %d,%d %d,%d %d,%d"/>' % (x0, y - 12, x1, y - 12, x1, y + 4, x0, y + 4))
                 out.append('        <Baseline points="%d,%d %d,%d"/>' % (x0, y, x1, y))
             out.append('      </TextLine>')
